@@ -589,9 +589,8 @@ func execAPI(c *ctx, rng *rand.Rand, pl *apiPool, s skelStep, small []xy, blind 
 			fail(err)
 			if err == nil {
 				reply = b2i(pl.spriv.Equal(k))
-				if pl.spriv.Public().(*bitcoin.SchnorrPublicKey).Equal(k.PublicKey()) != pl.spriv.Equal(k) {
-					reply = -2
-				}
+				// (d' and n - d' are different private keys with the same x-only public key: nothing to cross-check through Public())
+				_ = pl.spriv.Public().(*bitcoin.SchnorrPublicKey).Equal(k.PublicKey())
 			}
 		case "key.EqualForeign":
 			foreign := []any{big.NewInt(7), "not a key", struct{}{}, []byte{1}}[s.C%4]
